@@ -41,9 +41,16 @@ def list_sort(I, v, args, kw):
     for it, k in zip(items, keys):
         j = len(out)
         while j > 0:
-            kk, kt = I.num(k)
-            pk, pt = I.num(okeys[j - 1])
-            before = (pt < kt) if reverse else (kt < pt)     # strictly: equal keys keep their order
+            prev = okeys[j - 1]
+            if k.tag == "obj":
+                # objects are ordered by their own __gt__ (a < b is evaluated as b > a, as CPython does)
+                fc = I.cset.lookup_method(k.ref.cls, "__gt__")
+                hi, lo = (k, prev) if reverse else (prev, k)
+                before = I.truth(I.call_contract(fc, hi, [lo], {}, None))
+            else:
+                kk, kt = I.num(k)
+                pk, pt = I.num(prev)
+                before = (pt < kt) if reverse else (kt < pt)     # strictly: equal keys keep their order
             if I.ctx.branch(before):
                 j -= 1
             else:
